@@ -218,7 +218,7 @@ class ExprHarness(Harness):
     """one expression shape through one real pass"""
     shim_modules = ("ppci.ir", "ppci.opt.constantfolding", "ppci.opt.transform")
     max_paths = 4000
-    prove_timeout_ms = 5000
+    prove_timeout_ms = 30000
 
     def __init__(self, expr, layout="one", pas="fold"):
         self.expr = expr
